@@ -68,6 +68,9 @@ func StoreTerm(glob string) M {
 }
 func Send(chanGlob string) M { return M{kind: flow.SSend, term: chanGlob, desc: "send on " + chanGlob} }
 func Recv(chanGlob string) M { return M{kind: flow.SRecv, term: chanGlob, desc: "receive from " + chanGlob} }
+// Range matches the per-iteration head of range statements.
+func (M) Range() M { return M{kind: flow.SRange, desc: "range statement"} }
+
 func Return() M             { return M{kind: flow.SReturn, desc: "return"} }
 
 // Edge is a pseudo-site usable as an ORDER predecessor: a branch edge whose condition (as evaluated
